@@ -6,6 +6,8 @@ from . import absval as av
 from .dyn import F, MAPKEYS, RANGE, SCALARS, WRAPS
 
 ENUM_E = [["Z", 0], ["A", 1], ["N", -1], ["B", 2], ["BIG", 2**31 - 1], ["MIN", -2**31]]
+# another enum with other names for the same numbers, and a name of E for another number (used as a *foreign* member in E fields)
+ENUM_F = [["F_ZERO", 0], ["F_ONE", 1], ["F_SEVEN", 7], ["F_MINUS", -1], ["B_", 99]]
 VALUE_KINDS = SCALARS + ["enum"]
 
 
@@ -59,7 +61,7 @@ def wide_schema():
                        F("is", 7, "message", msg="Inner", pyname="is_"), F("global", 8, "sint32", "oneof", group="g", pyname="global_"),
                        F("other_member", 9, "string", "oneof", group="g"), F("HTTPStatus", 10, "int32", pyname="http_status"),
                        F("value", 11, "bytes"), F("type", 12, "string"), F("match", 13, "int32"), F("case", 14, "int64", "repeated")]
-    return {"types": types, "enums": {"E": ENUM_E}}
+    return {"types": types, "enums": {"E": ENUM_E, "F": ENUM_F}}
 
 
 # ------------------------------------------------------------------ boundary domains
@@ -84,6 +86,8 @@ US_DUR = [0, 1, -1, 999999, -999999, 10**6, -10**6, -1500000, 1500000, 2**53 + 1
 
 
 def scalar_domain(kind):
+    if kind == "enum":
+        return [av.aint(x) for x in int_boundary(kind)] + [dict(av.aint(x), foreign=True) for x in (0, 1, 7, -1, 99)]
     if kind in RANGE:
         return [av.aint(x) for x in int_boundary(kind)]
     if kind == "bool":
@@ -95,7 +99,7 @@ def scalar_domain(kind):
     if kind == "string":
         return [{"k": "str", "cp": av.cps(s)} for s in STRS]
     if kind == "bytes":
-        return [{"k": "bytes", "b": list(b)} for b in BYTS]
+        return [{"k": "bytes", "b": list(b)} for b in BYTS] + [{"k": "bytes", "b": [1, 2, 3], "ba": True}]
     raise AssertionError(kind)
 
 
@@ -193,6 +197,8 @@ def rint(kind, rnd):
 
 
 def rscalar(kind, rnd):
+    if kind == "enum" and rnd.random() < .15:
+        return dict(av.aint(rnd.choice([0, 1, 7, -1, 99])), foreign=True)
     if kind in RANGE:
         return av.aint(rint(kind, rnd))
     if kind == "bool":
@@ -210,7 +216,10 @@ def rscalar(kind, rnd):
         alpha = ["a", "Z", "é", "中", "\U0001F600", "\x00", " ", "߿", "ࠀ", "￿", "\U00010000", "\U0010ffff", "\x7f", "\x80"]
         return {"k": "str", "cp": [ord(rnd.choice(alpha)) for _ in range(n)]}
     if kind == "bytes":
-        return {"k": "bytes", "b": [rnd.getrandbits(8) for _ in range(rnd.randint(0, 6))]}
+        v = {"k": "bytes", "b": [rnd.getrandbits(8) for _ in range(rnd.randint(0, 6))]}
+        if rnd.random() < .15:
+            v["ba"] = True
+        return v
     raise AssertionError(kind)
 
 
